@@ -649,6 +649,22 @@ def run_verus(path, asm, flags=(), seed=None, rlimit=None, only_fn=None, timeout
                 for sp in spans:
                     if s0 <= sp["line_start"] <= e0:
                         fn = lab
+            if not tags and ("termination" in msg or msg.startswith("decreases")):
+                # a recursive call whose measure does not decrease: owned by the function-level `decreases` clause
+                lines_ = asm.text.split("\n")
+                start = None
+                for k in range(pl - 1, 0, -1):
+                    if re.match(r"\s*pub (?:const )?fn \w+", lines_[k - 1]):
+                        start = k
+                        break
+                if start:
+                    for k in range(start, min(len(lines_), pl) + 1):
+                        if re.match(r"\s*decreases\b", lines_[k - 1]) and k in asm.tags:
+                            tags = list(asm.tags[k])
+                            line_no = k
+                            break
+                        if lines_[k - 1].strip() == "{":
+                            break
             if not tags:
                 # site tags: an obligation carried by a call site in the extracted code (precondition of a std contract)
                 site_text = " ".join(t.get("text", "") for sp in prim for t in sp.get("text", []))
